@@ -3,11 +3,19 @@ package main
 import (
 	"fmt"
 	"path/filepath"
+	"strings"
 
 	eng "verif.local/engine"
 )
 
+// buildViolation: the generator accepted a corpus program of this property
+// but its output does not compile.
+type buildViolation struct{ prop, what string }
+
+func (b *buildViolation) Error() string { return b.what }
+
 type l2Prog struct {
+	src    string // corpus source file (without .go) holding the directive
 	entry  string
 	name   string
 	assert map[int]string
@@ -17,8 +25,14 @@ type l2Prog struct {
 // l2Plan: corpus harnesses serving a property.
 func l2Plan(prop, tier string) []l2Prog {
 	var ps []l2Prog
+	srcOf := map[string]string{"f01": "f01", "f03": "f02", "f04": "f02", "f05": "f02", "f06": "f05", "f07": "f05", "f08": "f04",
+		"p01": "f03", "p02": "f03", "p03": "f03", "p04": "f03", "p05": "f04", "p06": "f05", "p07": "f09"}
 	add := func(entry, name string, as, cs map[int]string) {
-		ps = append(ps, l2Prog{entry: entry, name: name, assert: as, cover: cs})
+		key := strings.TrimPrefix(entry, "verifHarness_")
+		if i := strings.Index(key, "_"); i > 0 {
+			key = key[:i]
+		}
+		ps = append(ps, l2Prog{src: srcOf[key], entry: entry, name: name, assert: as, cover: cs})
 	}
 	f01ok := func() {
 		add("verifHarness_f01_ok", "Flow01 (3 tasks, fan-in, listed out of order), all tasks succeed",
@@ -60,12 +74,49 @@ func l2Plan(prop, tier string) []l2Prog {
 			map[int]string{1: "nil iff no element failed", 2: "ContinueOnError(true): every element runs", 3: "ContinueOnError(true): one entry per failure", 4: "no failure: every element runs", 5: "no extra calls"},
 			map[int]string{1: "three elements, two failures, continue", 2: "two elements, one failure, fail-fast"})
 	}
+	p07 := func() {
+		add("verifHarness_p07", "Par07: Slice without index parameter + SliceEnd (context), symbolic length 0..3",
+			map[int]string{1: "nil iff no element failed", 2: "element function once per element", 3: "End hook exactly once", 4: "End hook after every element call", 5: "End hook never after a failed/panicked element"},
+			map[int]string{1: "three elements, no failure", 2: "an element panicked"})
+	}
 	p03 := func() {
 		add("verifHarness_p03", "Par03: Slice without index + Slice with context + Task, symbolic lengths 0..3",
 			map[int]string{1: "nil iff nothing failed", 2: "call counts equal the slice lengths", 3: "every element of the no-index slice is delivered", 4: "every (i, s[i]) of the indexed slice exactly once"},
 			map[int]string{1: "lengths 3 and 2"})
 	}
+	f08 := func() {
+		add("verifHarness_f08", "Flow08: instrumented flow (fallback task, predicate-gated task) with an EmitterStack of two recorders",
+			map[int]string{1: "exactly one of FlowSuccess/FlowError", 2: "exactly one FlowDone", 3: "Success iff nil", 4: "FlowError carries the returned error", 5: "Done after Success/Error", 6: "exactly one outcome event for an invoked task", 7: "failures of a fallback task are reported as recovered", 8: "exactly one TaskDone", 9: "outcome event carries the task's error / panic value", 10: "one outcome event for the gated task when invoked", 11: "one TaskDone when invoked", 12: "no TaskSkipped for an invoked task", 13: "no events for a task that was not invoked (except Skipped)", 14: "TaskSkipped exactly once for a non-invoked task when the flow returns nil", 15: "FlowDone is the last event"},
+			map[int]string{1: "predicate false and flow succeeds", 2: "flow fails", 3: "t1 panicked and was recovered"})
+	}
+	p05 := func() {
+		add("verifHarness_p05", "Par05: instrumented parallel, any subset fails or panics",
+			map[int]string{1: "exactly one of ParallelSuccess/ParallelError", 2: "exactly one ParallelDone", 3: "Success iff nil", 4: "ParallelError carries the returned error", 5: "one outcome event per invoked task", 6: "one TaskDone per invoked task", 7: "no events for a task that did not run"},
+			map[int]string{1: "success", 2: "a task panicked"})
+	}
+	f06 := func() {
+		add("verifHarness_f06", "Flow06: side effects in every argument position, user identifiers named sched/emitter/tasks/task0/v1/flowInfo",
+			map[int]string{1: "flow result equals reference", 2: "every argument expression evaluated exactly once", 3: "arguments evaluated in source order", 4: "all arguments evaluated before the first task", 5: "Params value reaches the task", 6: "Concurrency argument reaches the scheduler"},
+			map[int]string{1: "fallback used"})
+	}
+	f07 := func() {
+		add("verifHarness_f07", "Flow07: argument expression mentions an enclosing variable named err",
+			map[int]string{1: "flow succeeds", 2: "the task receives the value computed from the user's err variable", 3: "result equals reference"},
+			map[int]string{})
+	}
+	p06 := func() {
+		add("verifHarness_p06", "Par06: side effects in Parallel arguments (ctx, Concurrency, ContinueOnError, Slice collection)",
+			map[int]string{1: "succeeds", 2: "every argument expression evaluated exactly once", 3: "source order", 4: "before the first element call", 5: "Concurrency argument reaches the scheduler", 6: "every element processed"},
+			map[int]string{1: "two elements"})
+	}
 	switch prop {
+	case "C15":
+		f06()
+		f07()
+		p06()
+	case "C18":
+		f08()
+		p05()
 	case "C02":
 		f01ok()
 	case "C04":
@@ -85,6 +136,7 @@ func l2Plan(prop, tier string) []l2Prog {
 		p01()
 		p02()
 		p03()
+		p07()
 	case "C11":
 		f03()
 		f04()
@@ -104,7 +156,12 @@ func l2Specs(prop, tier string) ([]*eng.KernelSpec, *eng.Corpus, error) {
 	}
 	P, err := corpus.Load(filepath.Join(verifDir, "harness", "sched_contract.go.txt"), "flows")
 	if err != nil {
-		return nil, corpus, fmt.Errorf("generated corpus does not load/type-check: %v\n%s", err, corpus.GenLog)
+		for _, pr := range progs {
+			if pr.src != "" && strings.Contains(err.Error(), pr.src+"_gen.go") {
+				return nil, corpus, &buildViolation{prop: prop, what: fmt.Sprintf("cff exited 0 on %s.go but the generated %s_gen.go does not type-check: %v", pr.src, pr.src, err)}
+			}
+		}
+		return nil, corpus, fmt.Errorf("generated corpus does not load/type-check (in a file this property does not own): %v\n%s", err, corpus.GenLog)
 	}
 	pkg := eng.CorpusMod + "/flows"
 	var specs []*eng.KernelSpec
